@@ -19,6 +19,7 @@ package fmessages
 import (
 	"bufio"
 	"bytes"
+	"io"
 
 	pgserrors "github.com/codenotary/immudb/pkg/pgsql/errors"
 	"github.com/codenotary/immudb/pkg/pgsql/server/pgmeta"
@@ -124,6 +125,10 @@ func ParseBindMsg(payload []byte) (BindMsg, error) {
 		totalParamLen += int(pLen)
 		if totalParamLen > pgmeta.MaxMsgSize {
 			return BindMsg{}, pgserrors.ErrParametersValueSizeTooLarge
+		}
+		// the whole payload is buffered: a value cannot be longer than what is left of the message
+		if int(pLen) > r.Buffered() {
+			return BindMsg{}, io.EOF
 		}
 		pVal := make([]byte, pLen)
 		_, err = r.Read(pVal)
